@@ -244,7 +244,8 @@ def run_model_history(case, ctx):
         winners = [rng.randrange(len(st['branches'])) for st in snlib.sn_blocks(desc)]
         snlib.set_winners(nas, desc, winners, rng)
     else:
-        prog = mpslib.gen_mps_program(rng, small=True)
+        prog = mpslib.gen_mps_program(rng, small=True,
+                                      family='1d' if (case['seed'] // 3) % 4 == 3 else '2d')
         pc = k == 'mps-channel'
         w_prec = rng.choice(mpslib.PRECISION_TUPLES) if not pc else rng.choice(
             [(0, 2, 4, 8), (2, 4, 8), (8, 0, 2)])
@@ -262,6 +263,18 @@ def run_model_history(case, ctx):
         x = mpslib.in_range_inputs(prog, case['seed'], 2)
         assign = mpslib.assign_coefficients(nas, rng)
         init_cfg = None
+    if k != 'supernet':
+        ctx.cls('mps-family:' + prog['family'])
+
+    def apply_options(o):
+        nas.update_softmax_options(**o)
+        if k != 'supernet':
+            for _k, names, q in mpslib.unique_qtz(nas):
+                if hasattr(q, '_vf_cfg'):
+                    for kk, vv in o.items():
+                        if kk != 'temperature':
+                            q._vf_cfg[{'disable_sampling': 'disabled'}.get(kk, kk)] = vv
+        hist.append(('options', o))
     _log.clear()
     _flags['record'] = True
     try:
@@ -273,14 +286,7 @@ def run_model_history(case, ctx):
                         if rng.random() < 0.5 else {'hard': rng.random() < 0.5}
                 else:
                     o = random_options(rng)
-                nas.update_softmax_options(**o)
-                if k != 'supernet':
-                    for _k, names, q in mpslib.unique_qtz(nas):
-                        if hasattr(q, '_vf_cfg'):
-                            for kk, vv in o.items():
-                                if kk != 'temperature':
-                                    q._vf_cfg[{'disable_sampling': 'disabled'}.get(kk, kk)] = vv
-                hist.append(('options', o))
+                apply_options(o)
             elif r < 0.5:
                 nas.train(rng.random() < 0.5)
                 hist.append(('train' if nas.training else 'eval',))
@@ -306,6 +312,20 @@ def run_model_history(case, ctx):
                 assign = mpslib.assign_coefficients(nas, rng)
             hist.append(('coefficients-reassigned-after-last-forward',
                          'train' if nas.training else 'eval'))
+        elif k != 'supernet' and (case['seed'] // 3) % 3 == 1:
+            # noisy (Gumbel, high temperature) sample in training, then sampling is disabled: the
+            # stored sample no longer points at the arg-max of the raw coefficients, and nothing
+            # re-samples it before summary() / export()
+            apply_options({'gumbel': True, 'hard': False, 'disable_sampling': False,
+                           'temperature': rng.uniform(3.0, 20.0)})
+            nas.train()
+            with torch.no_grad():
+                nas(x)
+            apply_options({'disable_sampling': True})
+            nas.train((case['seed'] // 9) % 2 == 0)
+            hist.append(('noisy-sample-then-sampling-disabled',
+                         'train' if nas.training else 'eval'))
+            ctx.cls('end:noisy-sample-then-sampling-disabled')
         else:
             nas.eval()
             with torch.no_grad():
@@ -366,8 +386,19 @@ def run_model_history(case, ctx):
                 qm = c02.quant_modules(exported)
                 for name, s in summ.items():
                     e = qm.get(name)
+                    if e is not None and not hasattr(e, 'w_quantizer') and 'out_precision' in s:
+                        # input / residual-sum quantizers
+                        got = c02.qprec(getattr(e, 'out_quantizer', None))
+                        if got is not None and got != s['out_precision']:
+                            ctx.violation('export-vs-rselect', {
+                                'sig': 'mps-export-identity', 'layer': name, 'summary': dict(s),
+                                'exported_out': got, 'history': hist[-3:]})
                     if e is None or not hasattr(e, 'w_quantizer'):
                         continue
+                    if c02.qprec(e.in_quantizer) not in (s.get('in_precision'), None):
+                        ctx.violation('export-vs-rselect', {
+                            'sig': 'mps-export-in', 'layer': name, 'summary': dict(s),
+                            'exported_in': c02.qprec(e.in_quantizer), 'history': hist[-3:]})
                     if c02.qprec(e.w_quantizer) != s['w_precision'] or \
                             c02.qprec(e.out_quantizer) not in (s['out_precision'], None):
                         ctx.violation('export-vs-rselect', {
